@@ -103,6 +103,7 @@ theorem normalize_NF : ∀ (q : Q), NF (normalize q) = true
     simp only [normalize]
     exact binNormalize_NF k _ _ (normalize_NF a) (normalize_NF b)
   | .const _ _ => rfl
+  | .opq _ _ => rfl
 theorem normalizeList_NF : ∀ (qs : List Q), NFList (normalizeList qs) = true
   | [] => rfl
   | q :: qs => by
@@ -234,6 +235,7 @@ theorem normalize_sat_aux (env : Env) (hidx : ∀ d ∈ env.index, d.Plain) :
               simpa using this
           · simp only [sat, hany, iha d hd, ihb d hd]
   | .const _ _, _, _, _ => rfl
+  | .opq _ _, _, _, _ => rfl
 theorem normalizeList_sat_aux (env : Env) (hidx : ∀ d ∈ env.index, d.Plain) :
     ∀ (qs : List Q), cleanList qs = true → ∀ d ∈ env.index,
       satAll env (normalizeList qs) d = satAll env qs d ∧ satAny env (normalizeList qs) d = satAny env qs d
